@@ -4,7 +4,7 @@ CFG = dict(
     level="proof",
     lean_modules=["ElysModel.Props.C06"],
     props_files=["ElysModel/Props/C06.lean"],
-    runs=[hist_run(focus="lp."), hist_run(focus="ss.", sq=4, st=6)],
+    runs=[hist_run(focus="lp."), hist_run(focus="ss.", sq=4, st=6), fault_run(nq=200, sq=4, st=8, focus="ss.")],
     rule=HIST_RULE,
     trusted_base=COMMON_TB + ["vault ops are recognised from x/bank transfers to/from the stablestake module account; the interest accrued per borrower per block is a "
                               "witnessed (W) parameter taken from the observed debt record (for a debt deleted in the block: derived from the repay amount)"],
